@@ -266,6 +266,11 @@ namespace GeographicLib {
               break;
             }
             k = npiece;
+            if (k >= 3) {
+              errormsg = "More than 3 DMS components in " +
+                dmsa.substr(beg, end - beg);
+              break;
+            }
           }
           if (unsigned(k) == npiece - 1) {
             errormsg = "Repeated " + string(components_[k]) +
